@@ -46,8 +46,9 @@ func (t tgtSpec) String() string {
 }
 
 type eqOp struct {
-	K   string // set | find | dist | less | greater | consle | reset
-	Set string // MaxResults | DistanceLimit | MaxError | IncludeInteriors | UseBruteForce
+	K   string      // set | find | dist | less | greater | consle | reset | reinit
+	Add []shapeSpec // reinit: shapes added to the queried index before query.Reset()
+	Set string      // MaxResults | DistanceLimit | MaxError | IncludeInteriors | UseBruteForce
 	N   int
 	D   float64 // degrees
 	B   bool
@@ -76,7 +77,28 @@ func (o eqOp) String() string {
 	case "consle":
 		return fmt.Sprintf("IsConservativeDistanceLessOrEqual(%s, %.4gdeg)", o.T, o.D)
 	}
+	if o.K == "reinit" {
+		return fmt.Sprintf("index.Add%v; query.Reset()", o.Add)
+	}
 	return "Reset()"
+}
+
+// spreadSpec moves a shape to a random cube face, so that the top-level covering of the index
+// changes in number and order when it is added.
+func spreadSpec(rng *vkit.Rng) shapeSpec {
+	sp := randSpec(rng)
+	switch rng.Intn(6) {
+	case 0:
+		sp.Lat = 70 + rng.Range(-8, 8)
+	case 1:
+		sp.Lat = -70 + rng.Range(-8, 8)
+	default:
+		sp.Lng += 90 * float64(rng.Intn(4))
+	}
+	if sp.Kind == "points" || sp.Kind == "loop4" {
+		sp.Kind, sp.N = "polyline", 9+rng.Intn(30)
+	}
+	return sp
 }
 
 type eqGen struct {
@@ -141,6 +163,11 @@ func genEdgeQuery(j job) *eqGen {
 		}
 		g.specs = append(g.specs, sp)
 	}
+	if !small && rng.Bool() { // an index spread over several faces
+		for i := 1 + rng.Intn(3); i > 0; i-- {
+			g.specs = append(g.specs, spreadSpec(rng))
+		}
+	}
 	for k := 0; k < 2; k++ {
 		var ts []shapeSpec
 		for i := 0; i < 1+rng.Intn(2); i++ {
@@ -166,6 +193,10 @@ func genEdgeQuery(j job) *eqGen {
 			g.ops = []eqOp{{K: "dist", T: pt}, {K: "find", T: pt}}
 		case 2:
 			g.ops = []eqOp{{K: "less", T: pt, D: 3}, {K: "dist", T: pt}, {K: "find", T: pt}}
+		case 4: // reset_keeps_index_cells_refuted: query; the index grows; Reset; query
+			pl := func(lat, lng float64) shapeSpec { return shapeSpec{Kind: "polyline", Lat: lat, Lng: lng, R: 6, N: 9} }
+			g.specs = []shapeSpec{pl(5, 90), pl(5, 180), pl(5, -90), pl(75, 10)}
+			g.ops = []eqOp{{K: "set", Set: "IncludeInteriors", B: false}, {K: "find", T: pt}, {K: "reinit", Add: []shapeSpec{pl(5, 0)}}, {K: "find", T: pt}, {K: "dist", T: pt}}
 		default:
 			g.ops = []eqOp{{K: "less", T: it, D: 30}, {K: "dist", T: it}}
 		}
@@ -202,8 +233,14 @@ func genEdgeQuery(j job) *eqGen {
 			g.ops = append(g.ops, eqOp{K: "greater", T: t, D: d})
 		case x < 94:
 			g.ops = append(g.ops, eqOp{K: "consle", T: t, D: d})
-		default:
+		case x < 97:
 			g.ops = append(g.ops, eqOp{K: "reset"})
+		default:
+			o := eqOp{K: "reinit"}
+			for i := 1 + rng.Intn(2); i > 0; i-- {
+				o.Add = append(o.Add, spreadSpec(rng))
+			}
+			g.ops = append(g.ops, o)
 		}
 	}
 	g.ops = applyKeep(g.ops, j.Keep)
@@ -425,7 +462,7 @@ func execEdgeQuery(j job, r *result) {
 	kept := map[int]*target{} // index target objects kept across calls
 	u0coq := coqOpts(s2.VerifC13UserOpts(opts))
 	var coqOps []string
-	calls, kinds := 0, map[string]bool{}
+	calls, kinds, reinits := 0, map[string]bool{}, 0
 	r.Classes = append(r.Classes, fmt.Sprintf("equery:furthest=%v", g.furthest), fmt.Sprintf("equery:brute-size=%v", total <= 25))
 	for k, op := range g.ops {
 		fail := func(kind, msg string) {
@@ -434,7 +471,7 @@ func execEdgeQuery(j job, r *result) {
 		}
 		var tg *target
 		reusedIndexTarget := false
-		if op.K != "set" && op.K != "reset" {
+		if op.K != "set" && op.K != "reset" && op.K != "reinit" {
 			if op.T.Kind == "index" && op.T.Reuse {
 				if kept[op.T.Idx] == nil {
 					kept[op.T.Idx] = g.newTarget(op.T, tidx)
@@ -501,6 +538,16 @@ func execEdgeQuery(j job, r *result) {
 		case "reset":
 			q.Reset()
 			coqOps = append(coqOps, "QReset")
+		case "reinit": // the index changes and the caller re-initialises the query, as the contract demands
+			for _, sp := range op.Add {
+				sh := &hookShape{Shape: sp.build()}
+				hooks = append(hooks, sh)
+				idx.Add(sh)
+				total += sh.NumEdges()
+			}
+			q.Reset()
+			reinits++
+			coqOps = append(coqOps, "QReinit tt")
 		case "find":
 			got := tg.find(q)
 			coqOps = append(coqOps, "QFindEdges tt")
@@ -525,9 +572,25 @@ func execEdgeQuery(j job, r *result) {
 					fail(kindOf(), fmt.Sprintf("best distance %v; a fresh query object with the caller's options finds %v", got[0].Distance().Angle(), want[0].Distance().Angle()))
 				}
 			}
+			if u.MaxError == 0 && u.MaxResults != 1 && !u.Brute {
+				bu := u
+				bu.Brute = true
+				bq, bt := freshQ(bu)
+				if bw := bt.find(bq); distString(got) != distString(bw) {
+					fail(kindOf(), fmt.Sprintf("%d results at distances %s; a fresh BRUTE-FORCE query with the caller's options returns %d at %s", len(got), distString(got), len(bw), distString(bw)))
+				}
+			}
 		case "dist":
 			got := tg.dist(q)
 			coqOps = append(coqOps, "QDistance tt")
+			if u.MaxError == 0 && !u.Brute {
+				bu := u
+				bu.Brute = true
+				bq, bt := freshQ(bu)
+				if bw := bt.dist(bq); got != bw {
+					fail(kindOf(), fmt.Sprintf("Distance = %v; a fresh BRUTE-FORCE query with the caller's options gives %v", got.Angle(), bw.Angle()))
+				}
+			}
 			exact := u
 			exact.MaxError = 0
 			fq, ft := freshQ(exact)
@@ -590,6 +653,9 @@ func execEdgeQuery(j job, r *result) {
 				fail("EdgeQuery.cache", fmt.Sprintf("cached covering %v, a fresh query computes %v", cov, fc))
 			}
 		}
+	}
+	if reinits > 0 {
+		r.Classes = append(r.Classes, "equery:index-changed-then-Reset")
 	}
 	r.Nontriv = calls >= 2 && len(kinds) >= 2
 	_, alias := s2.VerifC13QueryOpts(q, opts)
